@@ -16,7 +16,7 @@ import (
 // gives the race detector something to look at.
 func free(c *hx.Ctx, prop string) {
 	runs := c.N(120, 3000)
-	for r := 0; r < runs; r++ {
+	for r := 0; r < runs && StuckTotal < 3; r++ {
 		rng := c.Rng.Fork()
 		n := 1 + rng.Intn(4)
 		p := Plan{MaxRetries: 1 + rng.Intn(3)}
@@ -116,7 +116,7 @@ func free(c *hx.Ctx, prop string) {
 		var stranded []string
 		select {
 		case <-done:
-		case <-time.After(10 * time.Second):
+		case <-time.After(4 * time.Second):
 			for _, cs := range s.calls {
 				cs.mu.Lock()
 				if !cs.returned {
@@ -127,6 +127,7 @@ func free(c *hx.Ctx, prop string) {
 			if len(stranded) == 0 {
 				stranded = append(stranded, "ForceClose@wg.Wait")
 			}
+			StuckTotal++
 		}
 		s.Close()
 		for i := range s.calls {
